@@ -148,7 +148,8 @@ pub fn judge_case(c: &Case) -> Obs {
         match lay.style {
             0 => obs.label("layout-canonical"),
             1 => obs.label("layout-varied"),
-            _ => obs.label("layout-comments"),
+            2 => obs.label("layout-comments"),
+            _ => obs.label("layout-statements-across-lines"),
         }
         match lacebox::assemble(&r.text, c.stack) {
             AsmResult::Ok(got) => {
